@@ -26,7 +26,12 @@ async fn run_language_server_impl(_arg: LspArg, project: Result<ProjectConfig>) 
   let config_base = project_config.project_dir;
   let (service, socket) =
     LspService::build(|client| Backend::new(client, config_base, config_result_std)).finish();
-  Server::new(stdin, stdout, socket).serve(service).await;
+  // handle messages strictly in order: document synchronization notifications must not
+  // overtake each other (a didChange handled while its didOpen is in flight is lost)
+  Server::new(stdin, stdout, socket)
+    .concurrency_level(1)
+    .serve(service)
+    .await;
   Ok(())
 }
 
